@@ -64,8 +64,12 @@ def main():
         text = open(demo).read()
         import re as _re
         # some demos assert that the package is imported from their own scratch worktree: point that path at the copies
-        rc0, o0 = run([PY, "-c", _re.sub(r"/tmp/seed/C\d+-wt|/tmp/seed5/wt\d+", clean, text)], env={"PYTHONPATH": clean}, cwd=work)
-        rc1, o1 = run([PY, "-c", _re.sub(r"/tmp/seed/C\d+-wt|/tmp/seed5/wt\d+", mut, text)], env={"PYTHONPATH": mut}, cwd=work)
+        # the demo is run from a file (some demos re-invoke themselves through __file__)
+        for name_, root_ in (("demo_clean.py", clean), ("demo_mut.py", mut)):
+            with open(os.path.join(work, name_), "w") as fh:
+                fh.write(_re.sub(r"/tmp/seed/C\d+-wt|/tmp/seed5/wt\d+", root_, text))
+        rc0, o0 = run([PY, os.path.join(work, "demo_clean.py")], env={"PYTHONPATH": clean}, cwd=work)
+        rc1, o1 = run([PY, os.path.join(work, "demo_mut.py")], env={"PYTHONPATH": mut}, cwd=work)
         meta["demo_passes_without"] = rc0 == 0
         meta["demo_fails_with"] = rc1 != 0
         meta["demo_output_with"] = o1[-600:]
